@@ -170,6 +170,96 @@ theorem bracket_overflow_witness :
     (detect (List.replicate 256 '[')).tag = "panic" ∧ (detect (List.replicate 255 '[')).tag = "ok" := by
   decide +kernel
 
+/-! ## style tables: `formats[i]` is the class of the format the i-th cell XF refers to
+
+    The custom definitions are given as grammar formats (`defs`, in file order; an id defined twice takes its last
+    definition). Documented precedence: xlsx and xls look an id up among the custom definitions first and fall back
+    to the built-in table; xlsb consults the built-in table first and the custom definitions only for ids the
+    built-in table calls `Other`. With `builtin_matches_documented` the built-in side is the ECMA-376 table. -/
+
+theorem style_lookup_xlsx (defs : List (List UInt8 × Fmt)) (hwf : ∀ d ∈ defs, WF d.2)
+    (hne : ∀ d ∈ defs, render d.2 ≠ []) (xfs : List (Option (List UInt8))) :
+    xlsxStyles (defs.map fun d => (d.1, render d.2)) xfs =
+      .ok (xfs.map fun xf =>
+        match xf with
+        | none => .other
+        | some id =>
+          match lastDef defs id with
+          | some f => classify f
+          | none => builtinById id) := by
+  have hfil : (defs.map fun d => (d.1, render d.2)).filter (fun d => !d.2.isEmpty) = defs.map fun d => (d.1, render d.2) := by
+    rw [List.filter_eq_self]
+    intro d hd
+    obtain ⟨d0, hd0, rfl⟩ := List.mem_map.mp hd
+    have := hne d0 hd0
+    cases h : render d0.2 with
+    | nil => exact absurd h this
+    | cons _ _ => rfl
+  induction xfs with
+  | nil => rfl
+  | cons xf xfs ih =>
+    simp only [xlsxStyles, hfil, ih, List.map_cons]
+    cases xf with
+    | none => rfl
+    | some id =>
+      simp only [lastDef_map (fun f => render f) defs id]
+      cases hl : lastDef defs id with
+      | none => rfl
+      | some f =>
+        have hmem : ∃ d ∈ defs, d.2 = f := by
+          clear ih hfil hne hwf
+          induction defs with
+          | nil => simp [lastDef] at hl
+          | cons d ds ihd =>
+            simp only [lastDef] at hl
+            cases h2 : lastDef ds id with
+            | some v =>
+              rw [h2] at hl
+              obtain ⟨d', hd', he⟩ := ihd (by rw [h2]; exact hl)
+              exact ⟨d', by simp [hd'], he⟩
+            | none =>
+              rw [h2] at hl
+              by_cases hb : (d.1 == id) = true
+              · simp [hb] at hl; exact ⟨d, by simp, hl⟩
+              · simp [hb] at hl
+        obtain ⟨d, hd, rfl⟩ := hmem
+        simp only [Option.map_some, scanner_grammar d.2 (hwf d hd)]
+
+theorem style_lookup_xlsb (defs : List (Nat × Fmt)) (hwf : ∀ d ∈ defs, WF d.2) (xfs : List Nat) :
+    xlsbStyles (defs.map fun d => (d.1, render d.2)) xfs =
+      .ok (xfs.map fun code =>
+        match builtinByCode code with
+        | .other => ((lastDef defs code).map classify).getD .other
+        | f => f) := by
+  simp only [xlsbStyles, detectAll_wf defs hwf, lastDef_map (fun f => classify f) defs]
+  rfl
+
+theorem style_lookup_xls (defs : List (Nat × Fmt)) (hwf : ∀ d ∈ defs, WF d.2) (xfs : List Nat) :
+    xlsStyles (defs.map fun d => (d.1, render d.2)) xfs =
+      .ok (xfs.map fun code =>
+        match lastDef defs code with
+        | some f => classify f
+        | none => builtinByCode code) := by
+  simp only [xlsStyles, detectAll_wf defs hwf, lastDef_map (fun f => classify f) defs]
+  congr 1
+  apply List.map_congr_left
+  intro code _
+  cases lastDef defs code <;> rfl
+
+/-- a workbook with `[h]:mm` as format 164, `"Due _"dd/mm/yyyy` as 165 and id 14 redefined as `0.0`:
+    XFs (0, 14, 164, 165, 22, 200) are typed as the property says; xlsb keeps the built-in meaning of 14 -/
+example :
+    let defs : List (Nat × Fmt) :=
+      [(164, { first := [.elapsed "h".toList, .num ':', .dateTok "mm".toList], rest := [] }),
+       (165, { first := [.lit "Due _".toList, .dateTok "dd".toList, .num '/', .dateTok "mm".toList, .num '/',
+                         .dateTok "yyyy".toList], rest := [] }),
+       (14, { first := [.num '0', .num '.', .num '0'], rest := [] })]
+    (∀ d ∈ defs, WF d.2) ∧
+    xlsStyles (defs.map fun d => (d.1, render d.2)) [0, 14, 164, 165, 22, 200]
+      = .ok [.other, .other, .timeDelta, .dateTime, .dateTime, .other] ∧
+    xlsbStyles (defs.map fun d => (d.1, render d.2)) [0, 14, 164, 165, 22, 200]
+      = .ok [.other, .dateTime, .timeDelta, .dateTime, .dateTime, .other] := by decide +kernel
+
 /-! ## non-vacuity: the hypotheses above are met by non-trivial formats -/
 
 /-- `[Red][$-409]"Due _"\ dd/mm/yyyy\ hh:mm AM/PM;"late;"[h]:mm` — colour, locale, a quoted literal containing an
